@@ -5,7 +5,7 @@ Driver requests for C17 (paths, filesystems, import chains).
 
 ```
 (fslookup <mode> <files> <dirs> <cwd> <entry> (<key> …))
-   mode  := impl | spec | spechome <hex-abs-path>
+   mode  := (impl <hex-home>) | (spec <hex-home>)      home: the text of `os.path.expanduser("~")`
    files := ((<hex-abs-path> <content>) …)        content := (attrs (<hex-key> <val>) …) | (notset)
    dirs  := (<hex-abs-path> …)
    val   := (lit <nat>) | (imp <arg>) | (set (<hex-key> <val>) …)
@@ -13,7 +13,7 @@ Driver requests for C17 (paths, filesystems, import chains).
    reply := (ok <val>) | (err <class>)
 (fslocate <files> <dirs> <cwd> <entry>)  -> (ok <hex-abs-path>) | (err os)
 (pathops <hex>)                          -> (ok <abs:t|f> (<hex-comp> …) (<hex-parent-comp> …))
-(resolved <hex-literal> <hex-src>|none)  -> (ok <abs> (<hex-comp> …)) | (err <class>)   [via the Recipe interpreter]
+(resolved <hex-literal> <hex-src>|none <hex-home>)  -> (ok <abs> (<hex-comp> …)) | (err <class>)   [via the Recipe interpreter]
 ```
 Absolute paths are sent as text (`/a/b/c`, already canonical) and split with `parsePath`.
 -/
@@ -92,11 +92,13 @@ def handle' (req : SExp) : SExp :=
     | some files, some dirs, some cwd, some entry, some (k :: ks) =>
       let fs : FS := ⟨files, dirs⟩
       match mode with
-      | .atom "impl" => encOutcome (implLookup fs cwd entry k ks)
-      | .atom "spec" => encOutcome (specFrom fs none cwd entry k ks)
-      | .list [.atom "spechome", .atom h] =>
-        match absComps h with
-        | some h => encOutcome (specFrom fs (some h) cwd entry k ks)
+      | .list [.atom "impl", .atom h] =>
+        match decText h with
+        | some h => encOutcome (implLookup fs (parsePath h) cwd entry k ks)
+        | none => bad
+      | .list [.atom "spec", .atom h] =>
+        match decText h with
+        | some h => encOutcome (specFrom fs (parsePath h) cwd entry k ks)
         | none => bad
       | _ => bad
     | _, _, _, _, _ => bad
@@ -113,13 +115,14 @@ def handle' (req : SExp) : SExp :=
       let p := parsePath t
       .list [.atom "ok", sBool p.abs, .list (p.comps.map sText), .list (p.parent.comps.map sText)]
     | none => bad
-  | .list [.atom "resolved", .atom lit, .atom src] =>
-    match decText lit, (if src == "none" then some none else (decText src).map (fun t => some (parsePath t))) with
-    | some t, some src =>
-      match recipeModel.eval t src ⟨true, []⟩ with
+  | .list [.atom "resolved", .atom lit, .atom src, .atom home] =>
+    match decText lit, (if src == "none" then some none else (decText src).map (fun t => some (parsePath t))),
+        decText home with
+    | some t, some src, some home =>
+      match recipeModel.eval t src (parsePath home) ⟨true, []⟩ with
       | .ok p => .list [.atom "ok", sBool p.abs, .list (p.comps.map sText)]
       | .error e => sErr e
-    | _, _ => bad
+    | _, _, _ => bad
   | _ => .list [.atom "bad-op"]
 
 def ops : List String := ["fslookup", "fslocate", "pathops", "resolved"]
